@@ -68,72 +68,102 @@ def run(ctx):
             mag = float(rs.choice([1e-16, 1e-8, 1e6]) if cls == "mmd" else rs.choice([1e-6, 1e4]))
             scaled.append((cls, ovo, n, K, regime, f"{kind}*{mag:g}", P, A * mag))
     cs = cs + scaled
-    lines, impl, recs = [], [], []
-    how = "gemclus.gemini.<Class>(...).evaluate(P, A, return_grad=True)[1] vs central differences through softmax(log P + tW)"
-    for (cls, ovo, n, K, regime, kind, P, A) in cs:
+    def sweep(cs, eps):
+        lines, impl, recs = [], [], []
+        how = "gemclus.gemini.<Class>(...).evaluate(P, A, return_grad=True)[1] vs central differences through softmax(log P + tW)"
+        for (cls, ovo, n, K, regime, kind, P, A) in cs:
+            try:
+                (s, G), calls = gl.impl_eval(cls, ovo, eps, P, A, grad=True)
+                s0, _ = gl.impl_eval(cls, ovo, eps, P, A, grad=False)
+            except Exception as e:
+                impl.append(e)
+                lines.append(None)
+                continue
+            impl.append((float(s), np.asarray(G, float), float(s0)))
+            emd = gl.emd_tables_or_none(calls, n, K, ovo) if cls == "wass" else None
+            if cls == "wass" and emd is None:
+                ctx.corr_break("grad:wass:pot-calls", {"config": f"wass_{'ovo' if ovo else 'ova'}", "n": n, "K": K},
+                               f"{len(calls or [])} ot.emd2 calls recorded: not the calls the model is parameterised by")
+                lines.append(None)
+                continue
+            lines.append(gl.model_line("grad", cls, ovo, eps, P, A, emd))
         try:
-            (s, G), calls = gl.impl_eval(cls, ovo, eps, P, A, grad=True)
-            s0, _ = gl.impl_eval(cls, ovo, eps, P, A, grad=False)
-        except Exception as e:
-            impl.append(e)
-            lines.append(None)
-            continue
-        impl.append((float(s), np.asarray(G, float), float(s0)))
-        emd = gl.emd_tables(calls, n, K, ovo) if cls == "wass" else None
-        lines.append(gl.model_line("grad", cls, ovo, eps, P, A, emd))
-    try:
-        outs = iter(core.run_driver("Gemini", [l for l in lines if l is not None]))
-        outs = [next(outs) if l is not None else None for l in lines]
-    except core.DriverBuildError as e:
-        ctx.proof["broken"].append({"theorem": "model build", "reason": str(e)[-400:]})
-        outs = [None] * len(lines)
-    for (cls, ovo, n, K, regime, kind, P, A), r, o in zip(cs, impl, outs):
-        cfg = f"{cls}_{'ovo' if ovo else 'ova'}"
-        desc = {"config": cfg, "n": n, "K": K, "regime": regime, "affinity": kind}
-        inp = {**desc, "P": P.tolist(), "A": None if A is None else A.tolist(), "epsilon": eps}
-        if isinstance(r, Exception):
-            ctx.case((cfg, P.tobytes()), False, None)
-            ctx.violation(f"evaluate(return_grad=True) raised {type(r).__name__}: {r}", "grad", inp, key=f"raise:{cfg}", how=how)
-            continue
-        s, G, s0 = r
-        ctx.case((cfg, P.tobytes(), None if A is None else A.tobytes()), bool(np.abs(G).max() > 0), {**desc, "P": P.round(6).tolist()})
-        ctx.count("cfg:" + cfg)
-        if G.shape != P.shape:
-            ctx.violation(f"gradient shape {G.shape} != predictions shape {P.shape}", "grad", inp, key=f"shape:{cfg}", how=how)
-            continue
-        if s != s0 and not (s != s and s0 != s0):
-            ctx.violation(f"score with return_grad ({s}) differs from score without ({s0})", "grad", inp, key=f"score-path:{cfg}", how=how)
-        if o is not None and cls == "mmd" and gl.mmd_conditioning(P, A, ovo, eps) < 1e-6:
-            ctx.count("illconditioned_not_compared:mmd-near-zero-distance")
-        elif o is not None:
-            m = [core.unhex(x) for x in o.split()]
-            ctx.compared("grad:" + cfg)
-            if not core.close_vec(G.ravel().tolist(), m, rtol=1e-7):
-                ctx.corr_break("grad:" + cfg, inp, {"impl": G.ravel().tolist(), "model": m})
-        # numeric derivative oracle
-        if regime == "onehot1e-9":
-            continue
-        g = gl.real_gemini(cls, ovo, eps)
-        for _ in range(2):
-            W = rs.randn(n, K)
-            dP = P * (W - (P * W).sum(1, keepdims=True))
-            an = float((G * dP).sum())
-            verdict, rich = judge_direction(g, P, A, W, an, s, c01.score_unit(cls, A))
-            if verdict == "error":
-                ctx.count("oracle_error")
+            outs = iter(core.run_driver("Gemini", [l for l in lines if l is not None]))
+            outs = [next(outs) if l is not None else None for l in lines]
+        except core.DriverBuildError as e:
+            ctx.proof["broken"].append({"theorem": "model build", "reason": str(e)[-400:]})
+            outs = [None] * len(lines)
+        for (cls, ovo, n, K, regime, kind, P, A), r, o in zip(cs, impl, outs):
+            cfg = f"{cls}_{'ovo' if ovo else 'ova'}"
+            desc = {"config": cfg, "n": n, "K": K, "regime": regime, "affinity": kind}
+            inp = {**desc, "P": P.tolist(), "A": None if A is None else A.tolist(), "epsilon": eps}
+            if isinstance(r, Exception):
+                ctx.case((cfg, P.tobytes()), False, None)
+                ctx.violation(f"evaluate(return_grad=True) raised {type(r).__name__}: {r}", "grad", inp, key=f"raise:{cfg}", how=how)
                 continue
-            if verdict == "illconditioned":
-                ctx.count("illconditioned_skipped:mmd-near-zero-distance")
+            s, G, s0 = r
+            ctx.case((cfg, P.tobytes(), None if A is None else A.tobytes()), bool(np.abs(G).max() > 0), {**desc, "P": P.round(6).tolist()})
+            ctx.count("cfg:" + cfg)
+            if G.shape != P.shape:
+                ctx.violation(f"gradient shape {G.shape} != predictions shape {P.shape}", "grad", inp, key=f"shape:{cfg}", how=how)
                 continue
-            if verdict == "kink":
-                ctx.count("nondifferentiable_skipped:" + cls)
+            if s != s0 and not (s != s and s0 != s0):
+                ctx.violation(f"score with return_grad ({s}) differs from score without ({s0})", "grad", inp, key=f"score-path:{cfg}", how=how)
+            if o is not None and cls == "mmd" and gl.mmd_conditioning(P, A, ovo, eps) < 1e-6:
+                ctx.count("illconditioned_not_compared:mmd-near-zero-distance")
+            elif o is not None:
+                m = [core.unhex(x) for x in o.split()]
+                ctx.compared("grad:" + cfg)
+                if not core.close_vec(G.ravel().tolist(), m, rtol=1e-7):
+                    ctx.corr_break("grad:" + cfg, inp, {"impl": G.ravel().tolist(), "model": m})
+            # numeric derivative oracle
+            if regime == "onehot1e-9":
                 continue
-            ctx.count("derivative_checked")
-            if verdict == "mismatch":
-                ctx.violation(f"<grad, dP> = {an!r} but the score's directional derivative is {rich!r} (at every step size "
-                              f"with agreeing one-sided slopes)", "grad",
-                              {**inp, "W": W.tolist()}, expected=rich, actual=an, key=f"derivative:{cfg}", how=how)
-                break
+            g = gl.real_gemini(cls, ovo, eps)
+            for _ in range(2):
+                W = rs.randn(n, K)
+                dP = P * (W - (P * W).sum(1, keepdims=True))
+                an = float((G * dP).sum())
+                verdict, rich = judge_direction(g, P, A, W, an, s, c01.score_unit(cls, A))
+                if verdict == "error":
+                    ctx.count("oracle_error")
+                    continue
+                if verdict == "illconditioned":
+                    ctx.count("illconditioned_skipped:mmd-near-zero-distance")
+                    continue
+                if verdict == "kink":
+                    ctx.count("nondifferentiable_skipped:" + cls)
+                    continue
+                ctx.count("derivative_checked")
+                if verdict == "mismatch":
+                    ctx.violation(f"<grad, dP> = {an!r} but the score's directional derivative is {rich!r} (at every step size "
+                                  f"with agreeing one-sided slopes)", "grad",
+                                  {**inp, "W": W.tolist()}, expected=rich, actual=an, key=f"derivative:{cfg}", how=how)
+                    break
+    sweep(cs, eps)
+    # the same for a clipping bound that really bites (epsilon = 1e-2, 1e-3) on predictions with saturated rows: clipped entries
+    # have zero gradient, the others must still carry the derivative of the score computed on the CLIPPED predictions
+    big = [c for c in cs if c[4] in ("sharp", "onehot1e-3", "onehot1e-6", "dirichlet") and "*" not in c[5]]
+    for e2 in (1e-2, 1e-3):
+        sel = [big[i] for i in rs.permutation(len(big))[: (12 if ctx.tier == "quick" else 120)]]
+        # every configuration at least twice on predictions that MIX soft rows with saturated ones (entries below the bound)
+        for cls, ovo in gl.CONFIGS:
+            for _ in range(2 if ctx.tier == "quick" else 10):
+                n, K = int(rs.randint(5, 8)), int(rs.randint(2, 4))
+                P = gl.gen_P(rs, n, K, "soft")
+                sat = gl.gen_P(rs, n, K, "onehot1e-3")
+                rows = rs.rand(n) < 0.5
+                rows[0], rows[-1] = True, False
+                P[rows] = sat[rows]
+                A = None
+                kind = ""
+                if cls == "mmd":
+                    kind = "rbf"; A = gl.gen_affinity(rs, n, kind)
+                if cls == "wass":
+                    kind = "euclidean"; A = gl.gen_affinity(rs, n, kind)
+                sel.append((cls, ovo, n, K, "mixed-saturated", kind, P, A))
+        ctx.count(f"epsilon={e2:g}:cases", len(sel))
+        sweep(sel, e2)
     # one object, several inputs: the gradient returned at each step is the derivative of the score AT THAT INPUT
     for (cls, ovo, P, A, r, hist) in c01.reuse_sequences(ctx, eps, grad=True):
         if r is None:
